@@ -384,6 +384,17 @@ int fiber_sleep(uint32_t seconds, uint32_t useconds) {
       (uint64_t)seconds * 1000 + useconds / 1000 + 1;  // ms
   waiter_el_t wake_info = {};
 
+#if defined(__linux__)
+  // timer expirations that nobody has read yet happened before this sleep
+  // began. count them now; otherwise the next poller adds them after this
+  // fiber has registered and wakes it early
+  uint64_t pending_count = 0;
+  if (fibershim_read(timer_fd, &pending_count, sizeof(pending_count)) ==
+      sizeof(pending_count)) {
+    fiber_event_wake_sleepers(fiber_manager_get(), pending_count);
+  }
+#endif
+
   fiber_spinlock_lock(&sleep_spinlock);
 
   const uint64_t wake_time = timer_trigger_count + sleep_ms;
